@@ -9,6 +9,7 @@ from robotools.fluenttools.utils import get_well_position
 from robotools.liquidhandling.labware import Labware
 from robotools.worklists.base import BaseWorklist
 from robotools.worklists.utils import (
+    materialize_tip,
     optimize_partition_by,
     partition_by_column,
     partition_volume,
@@ -78,6 +79,7 @@ class FluentWorklist(BaseWorklist):
             Most prominent example: `liquid_class`.
             Take a look at `Worklist.aspirate_well` for the full list of options.
         """
+        kwargs = materialize_tip(kwargs)
         # reformat the convenience parameters
         source_wells = np.array(source_wells).flatten("F")
         destination_wells = np.array(destination_wells).flatten("F")
